@@ -413,6 +413,14 @@ class Dimension:
     def __getnewargs_ex__(self) -> Tuple[Tuple[Tuple[int, ...]], Dict[str, Any]]:
         return (self.exponents,), {}
 
+    def __setstate__(self, state: Tuple[Any, Dict[str, Any]]) -> None:
+        # an interned object that is already alive keeps what it has been given since
+        # the pickle was taken (a name, a symbol, an alias)
+        if getattr(self, "_initialized", False):
+            return
+        for slot, value in state[1].items():
+            setattr(self, slot, value)
+
     # JSON support
 
     def __json__(self) -> Dict[str, Any]:
@@ -724,6 +732,14 @@ class Prefix:
 
     def __getnewargs_ex__(self) -> Tuple[Tuple[int, Numeric], Dict[str, Any]]:
         return (self.base, self.exponent), {}
+
+    def __setstate__(self, state: Tuple[Any, Dict[str, Any]]) -> None:
+        # an interned object that is already alive keeps what it has been given since
+        # the pickle was taken (a name, a symbol, an alias)
+        if getattr(self, "_initialized", False):
+            return
+        for slot, value in state[1].items():
+            setattr(self, slot, value)
 
     # JSON support
 
@@ -1080,6 +1096,14 @@ class Unit:
         args = (self.prefix, factors, self.dimension)
         kwargs = {"name": self.name, "symbol": self.symbol}
         return args, kwargs
+
+    def __setstate__(self, state: Tuple[Any, Dict[str, Any]]) -> None:
+        # an interned object that is already alive keeps what it has been given since
+        # the pickle was taken (a name, a symbol, an alias)
+        if getattr(self, "_initialized", False):
+            return
+        for slot, value in state[1].items():
+            setattr(self, slot, value)
 
     # JSON support
 
